@@ -27,12 +27,30 @@ ASSUMPTIONS = [
     "object key columns hold mutually comparable values only; strings containing U+0000 are not generated",
     "strings starting with U+FFFF (the library's in-band sentinel for missing strings) form a tagged class",
 ]
-REACH = {"quick": {"nrow:0": 50, "key:lstr": 100, "key:ustr": 100, "key:str": 300, "multi-key-mixed-dir": 200, "key-all-missing": 50, "desc-nonnumeric": 300}}
+REACH = {"quick": {"nrow:0": 50, "key:lstr": 100, "key:ustr": 100, "key:str": 300, "multi-key-mixed-dir": 200, "key-all-missing": 50, "desc-nonnumeric": 300, "tag:big": 10}}
 
 KEY_KINDS = ["bool", "int", "float", "str", "str", "lstr", "ustr", "date", "datetime", "obool", "ostr"]
 
+def _big_case(rng):
+    """Size-dependent paths: > 10000 rows, the longest / distinguishing strings only in the tail."""
+    nrow = rng.choice([10050, 12000, 16500])
+    head = [rng.choice(["a", "ab", "b", "abc", "zz"]) for _ in range(nrow - 60)]
+    style = rng.choice(["short-tail", "long-tail"])
+    if style == "short-tail":
+        tail = [rng.choice(["abcdefgh1", "abcdefgh0", "abcdefgz", "abcdefgh", "abcd"]) for _ in range(60)]
+    else:
+        tail = [("y" * 55) + rng.choice(["c", "a", "b", "ab", ""]) for _ in range(60)]
+    vals = head + tail
+    if rng.random() < 0.3:
+        vals[rng.randrange(nrow)] = None
+    spec = [("_rid_", "int", list(range(nrow))), ("k0", "str", vals), ("k1", "int", [rng.choice([1, 2, 3]) for _ in range(nrow)])]
+    keys = [("k0", rng.choice([1, -1]))] + ([("k1", rng.choice([1, -1]))] if rng.random() < 0.5 else [])
+    return {"spec": spec, "keys": keys, "tags": ["big"]}
+
 def generate(rng, tier):
     tags = set()
+    if rng.random() < 0.002:
+        return _big_case(rng)
     nrow = gen.gen_nrow(rng, big=(tier == "thorough"))
     nkey = rng.choice([1, 1, 2, 2, 3])
     spec = [("_rid_", "int", list(range(nrow)))]
